@@ -72,6 +72,9 @@ type Property struct {
 	Parallel    int           // max worker processes (default 16)
 	WorkerProcs int           // GOMAXPROCS of a worker (0 = 2; -1 = leave alone)
 	CaseTimeout time.Duration // watchdog per case (never a verdict by itself)
+	// PeerWaitFrames: top frames under which a goroutine in state "select" is waiting for a peer
+	// inside the same process (loopback gRPC streams); used by the deadlock certificate only.
+	PeerWaitFrames []string
 	Env         func(c Case) []string
 	Gen         func(g *GenCtx) []Case
 	// Exec runs in a worker child process.
